@@ -1,5 +1,6 @@
 """Expression translation (syntax-directed, type-dispatched) of the Python subset to Lean terms."""
 import ast
+import re
 from pytypes import (T, TVar, TInt, TBool, TRat, TUnit, TList, TSet, TArr, TDict, TProd, TOpt, TObj,
                      unify, kind, is_mutable, Unsupported)
 
@@ -33,6 +34,9 @@ class ExprMixin:
         kf, kt = kind(tf), kind(tt)
         if kf == "int" and kt == "rat":
             return "((%s : Int) : Rat)" % s
+        if kt == "opt" and kf not in ("opt", "var"):      # a value where an optional value is expected
+            unify(tf, tt.find().args[0], node, what)
+            return "(some %s)" % s
         if {kf, kt} == {"arr", "list"}:
             unify(tf.find().args[0], tt.find().args[0], node, what)
             return s
@@ -56,6 +60,10 @@ class ExprMixin:
         return k
 
     def numeric_join(self, a, ta, b, tb, node):
+        if kind(ta) == "bool":                      # a bool used as a number (True = 1)
+            a, ta = "(PyRt.boolToInt %s)" % a, TInt
+        if kind(tb) == "bool":
+            b, tb = "(PyRt.boolToInt %s)" % b, TInt
         ka = self.need(ta, ("int", "rat"), node, "left operand")
         kb = self.need(tb, ("int", "rat"), node, "right operand")
         if ka == kb:
@@ -71,18 +79,30 @@ class ExprMixin:
 
     def ex_Constant(self, e):
         v = e.value
+        if v is None:
+            return "none", TOpt(TVar())
         if v is True:
             return "true", TBool
         if v is False:
             return "false", TBool
         if isinstance(v, int):
             return int_lit(v), TInt
+        if isinstance(v, float) and v == int(v):
+            return "((%d : Int) : Rat)" % int(v), TRat
+        if isinstance(v, float):
+            from fractions import Fraction
+            q = Fraction(str(v))          # the decimal literal of the source, exactly
+            return "(((%d : Int) : Rat) / ((%d : Int) : Rat))" % (q.numerator, q.denominator), TRat
         raise Unsupported("unsupported constant %r" % (v,), e)
 
     def ex_Name(self, e):
         return ident(e.id), self.var_type(e.id, e)
 
     def ex_Attribute(self, e):
+        u = ast.unparse(e)
+        if u in self.mod.read_attrs:
+            sig = self.mod.read_attrs[u]
+            return "(F.%s self.%s)" % (ident(sig["name"]), ident(self.mod.spec["world"])), sig["ret"]
         if isinstance(e.value, ast.Name) and e.value.id == "self" and self.fn.is_method:
             if e.attr not in self.mod.fields:
                 raise Unsupported("attribute self.%s is %s" % (e.attr, "not declared in the spec (fields) of this slice"
@@ -95,6 +115,10 @@ class ExprMixin:
             if e.attr in fields:
                 return "%s.%s" % (s, ident(e.attr)), fields[e.attr]
             raise Unsupported("attribute .%s is not declared for the record class %s" % (e.attr, t.find().name), e)
+        if kind(t) == "obj":
+            for o in self.mod.objects.values():
+                if o["lean_type"] == t.find().name and e.attr in o.get("field_types", {}):
+                    return "%s.%s" % (s, ident(e.attr)), o["field_types"][e.attr]
         if kind(t) == "obj" and t.find().name.startswith("PyRt.") and t.find().name[5:] in self.mod.ext_classes:
             fields = dict(self.mod.ext_classes[t.find().name[5:]])
             if e.attr in fields:
@@ -128,6 +152,9 @@ class ExprMixin:
         unify(tc, TBool, e, "condition")
         a, ta = self.ex(e.body)
         b, tb = self.ex(e.orelse)
+        if {kind(ta), kind(tb)} == {"int", "rat"}:          # `x if c else 1`: the int branch is the same number as a float
+            a, b, ta = self.numeric_join(a, ta, b, tb, e)
+            tb = ta
         unify(ta, tb, e, "branches of conditional expression")
         return "(if %s then %s else %s)" % (c, a, b), ta
 
@@ -143,7 +170,7 @@ class ExprMixin:
             raise Unsupported("cannot determine operand types of binary %s" % o, node)
         if o in ("Add", "Sub", "Mult"):
             sym = {"Add": "+", "Sub": "-", "Mult": "*"}[o]
-            if ka in ("int", "rat") and kb in ("int", "rat"):
+            if ka in ("int", "rat", "bool") and kb in ("int", "rat", "bool") and (ka, kb) != ("bool", "bool"):
                 a, b, t = self.numeric_join(a, ta, b, tb, node)
                 return "(%s %s %s)" % (a, sym, b), t
             if o == "Add" and ka == "list" and kb == "list":
@@ -159,6 +186,11 @@ class ExprMixin:
             if ka == "int" and kb == "arr" and o in ("Add", "Mult"):
                 unify(tb.find().args[0], TInt, node, "array arithmetic")
                 return "(PyRt.%s %s %s)" % ("arrShift" if o == "Add" else "arrScale", b, a), tb
+        if o == "Pow" and ka == "rat" and kb == "int" and re.fullmatch(r"\((\d+) : Int\)", b):
+            return "(%s ^ (%s : Nat))" % (a, re.fullmatch(r"\((\d+) : Int\)", b).group(1)), TRat
+        if o == "Pow" and ka == "rat" and kb == "int":      # float ** int: a negative exponent is the reciprocal power
+            return ("(if (decide ((0 : Int) ≤ %s)) then (%s ^ (Int.toNat %s)) else ((((1 : Int) : Int) : Rat) / (%s ^ (Int.toNat (-%s)))))"
+                    % (b, a, b, a, b)), TRat
         if o in ("Mod", "FloorDiv", "Pow") and ka == "int" and kb == "int":
             f = {"Mod": "mod", "FloorDiv": "floorDiv", "Pow": "pow"}[o]
             return "(PyRt.%s %s %s)" % (f, a, b), TInt
@@ -203,6 +235,12 @@ class ExprMixin:
                 unify(ta, tb.find().args[0], node, "element of `in`")
                 s = "(List.contains %s %s)" % (b, a)
             return s if o == "In" else "(!%s)" % s
+        if o in ("Is", "IsNot") and (a == "none" or b == "none"):
+            x, tx = (b, tb) if a == "none" else (a, ta)
+            if kind(tx) == "opt":
+                return "(Option.isNone %s)" % x if o == "Is" else "(Option.isSome %s)" % x
+            if kind(tx) != "var":
+                return ("false" if o == "Is" else "true")          # a value of a non-optional type is never None
         raise Unsupported("unsupported comparison %s" % o, node)
 
     def ex_List(self, e):
